@@ -102,6 +102,9 @@ func TypeStr(t N) string {
 	case "atomic":
 		return "atomic<" + TypeStr(Sub(t, "e")) + ">"
 	case "ptr":
+		if S(t, "access") == "rw" {
+			return fmt.Sprintf("ptr<%s, %s, read_write>", S(t, "space"), TypeStr(Sub(t, "e")))
+		}
 		return fmt.Sprintf("ptr<%s, %s>", S(t, "space"), TypeStr(Sub(t, "e")))
 	}
 	return K(t)
